@@ -36,11 +36,11 @@ type c15Req struct {
 }
 
 type c15Result struct {
-	ID       string   `json:"id"`
-	Reqs     []c15Req `json:"reqs"`
-	Other    []string `json:"other"` // methods of nonce-less messages the middlewares saw
-	NotifMW  int      `json:"notif_mw"`
-	Broken   string   `json:"broken,omitempty"`
+	ID      string   `json:"id"`
+	Reqs    []c15Req `json:"reqs"`
+	Other   []string `json:"other"` // methods of nonce-less messages the middlewares saw
+	NotifMW int      `json:"notif_mw"`
+	Broken  string   `json:"broken,omitempty"`
 }
 
 type c15Rec struct {
